@@ -240,6 +240,20 @@ def run(chk):
             hay = hay[:-1 - rng.randint(0, 1)]       # occurrence cut short: the answer is mostly "no"
         a, b = (S(bytes(hay)), S(bytes(needle))) if strings else (seq(*[I(v) for v in hay]), seq(*[I(v) for v in needle]))
         cases.append((rng.choice(["?find", "!find", "?find", "?starts", "?ends"]), (a, b), rng.choice([2, 3, 5])))
+    # sequences captured from a producer whose results carry non-zero positions (one element, two, three): `elem` / `relem` number
+    # what they yield afresh, whatever position an element had when it was captured
+    for _ in range(150 if quick else 3000):
+        src = seq(*[I(rng.randint(5, 9)) for _ in range(rng.randint(3, 5))])
+        n_src = len(src[2][1])
+        ks = sorted(rng.sample(range(1, n_src), rng.choice([1, 1, 1, 2, min(3, n_src - 1)])))
+        pick = ("or", [("npos", True, k) for k in ks]) if len(ks) > 1 else ("npos", True, ks[0])
+        a = ("cap", (), ("cat", [src, ("word", "elem"), pick]))
+        w = rng.choice(["elem", "relem", "elem", "length", "dup"])
+        if rng.random() < 0.4:
+            b = seq(I(1)) if rng.random() < 0.5 else a
+            cases.append((rng.choice(["add", "?eq", "?find"]), (a, b), rng.choice([2, 3])))
+        else:
+            cases.append((w, (a,), rng.choice([1, 2, 4])))
     # regular expressions: patterns that compile and patterns that cannot, on matching and non-matching strings (the histories apply the
     # same pattern to several stacks in a row, and other patterns before and after)
     from vf.zmodel import BAD_ERE
